@@ -67,10 +67,16 @@ def rel_symlink(base: Path, dir: Path) -> Optional[Path]:
         base = base.resolve()
         # where the link (possibly through other links) finally leads must be inside
         path.resolve().relative_to(base)
-        # the recorded target is the one of this link itself, only normalized
-        # (not the place a chain of further symlinks ends at)
-        norm = os.path.normpath(str(dir.parent.resolve() / os.readlink(str(dir))))
-        return Path(norm).relative_to(base)
+        # the recorded target is the one of this link itself, only normalized (not the
+        # place a chain of further symlinks ends at). A ".." is taken physically: the
+        # component before it can be a symlink to a directory located somewhere else.
+        cur = dir.parent.resolve()
+        for seg in Path(os.readlink(str(dir))).parts:
+            if seg == "..":
+                cur = cur.resolve().parent
+            else:
+                cur = cur / seg  # (an absolute target starts over at its root)
+        return cur.relative_to(base)
     except ValueError:
         return None  # link points outside of base directory
 
